@@ -242,24 +242,23 @@ def _j(h):
 
 
 def tasks(tier):
-    depth, cont = (3, 2) if tier == "quick" else (4, 3)
+    depth, cont = (4, 2) if tier == "quick" else (5, 3)
     out = []
     for name in ZOO:
         out.append((name, zoo_program(name), depth, cont))
     for name, src in REF_PROGRAMS.items():
         out.append((name, src, depth, cont))
-    # hosts: hierarchy programs of C06 and group programs of C07 (deterministic subset in quick)
+    # hosts: hierarchy programs of C06, group programs of C07, library flows of C09 (deterministic subsets in quick)
     from vf.props import c06, c07
-    c6 = [t for t in c06.tasks(tier)]
-    step = 12 if tier == "quick" else 3
+    c6 = [t for t in c06.tasks(tier) if len(t) == 7]
+    step = 4 if tier == "quick" else 1
     for i, t in enumerate(c6):
         if i % step == 0:
-            out.append((f"c06:{t[5]['t']}:{i}", t[0], depth - 1 if tier == "quick" else depth - 1, 1 if tier == "quick" else 2))
-    fs = c07.formulas(3)
+            out.append((f"c06:{t[5]['t']}:{i}", t[0], 3 if tier == "quick" else 4, 2))
+    fs = c07.formulas(3 if tier == "quick" else 4)
     for i, f in enumerate(fs):
-        for form in ("match_events", "await_flows", "when_flows"):
-            if (i % 2 == 0) or tier == "thorough":
-                out.append((f"c07:{form}:{i}", c07.program(f, form).replace("E0()", "E3()").replace("Done()", "Never()"), depth, 1 if tier == "quick" else 2))
+        for form in ("match_events", "await_flows", "when_flows", "when_events", "start_match_flows"):
+            out.append((f"c07:{form}:{i}", c07.program(f, form).replace("E0()", "E3()").replace("Done()", "Never()"), depth, 2))
     return out
 
 
